@@ -20,7 +20,10 @@ template <typename T>
     if (n == T(0)) {
         return T(0); // also for -0.0
     }
-    return n * T(-1);
+    if (n < T(0)) {
+        return n * T(-1);
+    }
+    return n; // NaN: no arithmetic, constant evaluation would fail
 }
 
 } // namespace detail
